@@ -3,7 +3,7 @@ use crate::bb::{self, Layout};
 use crate::build;
 use crate::daemon::{Daemon, HookCollector, ProcState};
 use crate::engine::*;
-use crate::mockca::{CaPlan, MockCa, Pos};
+use crate::mockca::{Action, CaPlan, Fault, MockCa, Pos};
 use proptest::prelude::*;
 use serde::{Deserialize, Serialize};
 use serde_json::json;
@@ -19,6 +19,9 @@ pub struct Case {
 	/// first | forgot | pending-contacts | pending-key | pending-both
 	pub scenario: String,
 	pub nonce_on_get: bool,
+	/// answers cut in the middle of the body (complete headers, fresh Replay-Nonce included): the k-th transmission at a position, on every endpoint
+	#[serde(default)]
+	pub cuts: Vec<(Pos, usize)>,
 }
 
 fn strategy() -> impl Strategy<Value = Case> {
@@ -31,11 +34,16 @@ fn strategy() -> impl Strategy<Value = Case> {
 		proptest::sample::select(vec![1usize, 2, 4, 16]),
 		prop_oneof![3 => Just("first"), 2 => Just("forgot"), 1 => Just("pending-contacts"), 1 => Just("pending-key"), 1 => Just("pending-both")],
 		any::<bool>(),
+		prop_oneof![2 => Just(vec![]), 1 => proptest::collection::vec((proptest::sample::select(vec![Pos::NewOrder, Pos::Authz(0), Pos::Chall(0), Pos::AuthzPoll(0), Pos::Finalize, Pos::Cert]), 1usize..=3), 1..=2)],
 	)
-		.prop_map(|(n, na, ne, raw, delays_ms, threads, scenario, nonce_on_get)| {
+		.prop_map(|(n, na, ne, raw, delays_ms, threads, scenario, nonce_on_get, cuts)| {
 			let assign = raw.iter().take(n).map(|(a, e)| (a % na, e % ne)).collect();
-			Case { assign, delays_ms, threads, scenario: scenario.to_string(), nonce_on_get }
+			Case { assign, delays_ms, threads, scenario: scenario.to_string(), nonce_on_get, cuts }
 		})
+}
+
+fn post_ok(r: &crate::daemon::HookRecord) -> bool {
+	bb::is_post(r) && r.arg("is_success") == Some("true")
 }
 
 fn run_once(case: &Case) -> Result<Result<Vec<String>, (String, String)>, String> {
@@ -49,7 +57,8 @@ fn run_once(case: &Case) -> Result<Result<Vec<String>, (String, String)>, String
 	let mut cas = vec![];
 	for e in 0..n_ep {
 		let map = (0..n).filter(|i| case.assign[*i].1 == e).map(|i| (bb::ident_key(&[("dns".to_string(), format!("k{i}.c12.test"))]), format!("c{i}"))).collect();
-		cas.push(MockCa::start(CaPlan { delays_ms: case.delays_ms.clone(), nonce_on_get: case.nonce_on_get, seed: 11 + e as u64, ..CaPlan::default() }, map)?);
+		let faults = case.cuts.iter().map(|(p, k)| Fault { pos: p.clone(), nth: *k, repeat: 1, action: Action::DropMidResponse, cert: None }).collect();
+		cas.push(MockCa::start(CaPlan { faults, delays_ms: case.delays_ms.clone(), nonce_on_get: case.nonce_on_get, seed: 11 + e as u64, ..CaPlan::default() }, map)?);
 	}
 	let mk_cfg = |contacts: &str, key: &str| {
 		json!({
@@ -71,8 +80,9 @@ fn run_once(case: &Case) -> Result<Result<Vec<String>, (String, String)>, String
 		let mut opts = bb::daemon_opts(&acmed, &dir, &cfg_path, &format!("run{run_no}"));
 		opts.env.push(("TOKIO_WORKER_THREADS".into(), case.threads.to_string()));
 		let mut daemon = Daemon::spawn(&opts)?;
-		coll.hold_when(Box::new(|r, _| bb::is_post(r)));
-		let ok = coll.wait_until(&|r| r.iter().filter(|x| bb::is_post(x)).count() >= want_total, Duration::from_secs(60), &mut || daemon.state() != ProcState::Alive);
+		// a successful post-operation record ends that certificate's part; a failed one (answer cut by the CA) is let through and the renewal is repeated
+		coll.hold_when(Box::new(|r, _| post_ok(r)));
+		let ok = coll.wait_until(&|r| r.iter().filter(|x| post_ok(x)).count() >= want_total, Duration::from_secs(60), &mut || daemon.state() != ProcState::Alive);
 		let recs = coll.records();
 		let st = daemon.state();
 		let tail = daemon.stderr_tail(14);
@@ -85,10 +95,12 @@ fn run_once(case: &Case) -> Result<Result<Vec<String>, (String, String)>, String
 			return Ok(Err(("C12:daemon-died".into(), format!("{st:?}; {d}\n{tail}"))));
 		}
 		if !ok {
-			let done: Vec<String> = recs.iter().filter(|x| bb::is_post(x)).map(|r| r.hook_id.clone()).collect();
+			let done: Vec<String> = recs.iter().filter(|x| post_ok(x)).map(|r| r.hook_id.clone()).collect();
 			return Ok(Err(("C12:renewal-stalled".into(), format!("{} of {want_total} renewals ended within 60 s (typical 1 s); last request {idle_s:.1} s ago; ended: {done:?}; {d}\n{tail}", done.len()))));
 		}
-		if let Some(r) = recs.iter().find(|r| bb::is_post(r) && r.arg("is_success") != Some("true")) {
+		let failed: Vec<_> = recs.iter().filter(|r| bb::is_post(r) && !post_ok(r)).collect();
+		if failed.len() > case.cuts.len() * n_ep {
+			let r = failed[0];
 			return Ok(Err(("C12:renewal-failed".into(), format!("{}: {:?}; {d}\n{tail}", r.hook_id, r.arg("status")))));
 		}
 		Ok(Ok(()))
@@ -162,6 +174,9 @@ fn run_once(case: &Case) -> Result<Result<Vec<String>, (String, String)>, String
 	if shared {
 		classes.push("shared-account+endpoint".into());
 	}
+	if !case.cuts.is_empty() {
+		classes.push(format!("answers-cut={}", case.cuts.len()));
+	}
 	Ok(Ok(classes))
 }
 
@@ -186,7 +201,7 @@ fn exec(case: &Case) -> Outcome {
 }
 
 pub fn run(ctx: &Ctx, rep: &mut Report) {
-	rep.rule = "2..8 certificates over 1..3 accounts and 1..3 endpoints in random sharing patterns, per-response delays 0..40 ms from the seeded plan, TOKIO_WORKER_THREADS in {1,2,4,16}, CAs with/without nonces on GET; scenario: concurrent first registration alone, or followed by a second run in which all certificates renew at once after the CA forgot the accounts / the contacts / the key type / both were edited (the paths that take the account write lock). Oracle: every certificate reaches its post-operation record (60 s watchdog vs ~1 s typical, a hit is re-run once), every renewal succeeds, newAccount / key-change / contact-update counts per (account, endpoint) are exactly the model's, the CA's nonce ledger shows no unknown or re-used nonce (in particular none consumed by two certificates). Non-trivial = >= 2 certificates share an account and an endpoint.".into();
+	rep.rule = "2..8 certificates over 1..3 accounts and 1..3 endpoints in random sharing patterns, per-response delays 0..40 ms from the seeded plan, TOKIO_WORKER_THREADS in {1,2,4,16}, CAs with/without nonces on GET; scenario: concurrent first registration alone, or followed by a second run in which all certificates renew at once after the CA forgot the accounts / the contacts / the key type / both were edited (the paths that take the account write lock); in a third of the cases 1..2 answers to POSTs are cut in the middle of the body after complete headers (the renewal hit fails and is repeated; the nonce chain of the shared endpoint must stay fresh). Oracle: every certificate reaches its post-operation record (60 s watchdog vs ~1 s typical, a hit is re-run once), every renewal succeeds, newAccount / key-change / contact-update counts per (account, endpoint) are exactly the model's, the CA's nonce ledger shows no unknown or re-used nonce (in particular none consumed by two certificates). Non-trivial = >= 2 certificates share an account and an endpoint.".into();
 	rep.assume("the harness perturbs but does not own the schedule (tokio tasks interleave at await points, which the response delays move); a seed reproduces the plan, not necessarily the interleaving");
 	run_replays::<Case>(ctx, rep, "bb", &exec);
 	if ctx.replay.is_some() {
